@@ -17,16 +17,18 @@ Record Side (s : st) : Prop := {
   sd_if : ifdepth s = 0%nat; sd_udef : udef s = None; sd_um : umacros s = []; sd_bf : bf s = None;
   sd_dt : dtags s = []; sd_vs : verse s = false; sd_fmt : fmt s = FX; sd_mode : mode s = 0%nat;
   sd_np : panicked s = None; sd_iv : ivars s = []; sd_pa : params s = [(R "xhtml-index", R "full"); (R "lang", R "en")];
-  sd_toc : toc s = fst K; sd_lox : lox_toc s = snd K
+  sd_toc : toc s = fst K; sd_lox : lox_toc s = snd K;
+  sd_lof : lox_lof s = []; sd_lot : lox_lot s = []; sd_lop : lox_lop s = []
 }.
 Lemma Side_eqf a b : a ~= b -> Side b -> Side a.
-Proof. intros H [A1 A3 A4 A5 A6 A7 A8 A9 A10 A11 A12 A13 A14 A15 A16 A17].
+Proof. intros H [A1 A3 A4 A5 A6 A7 A8 A9 A10 A11 A12 A13 A14 A15 A16 A17 A18 A19 A20].
   split; [rewrite (eqf_get mtags _ _ (fun _ => eq_refl) H)|rewrite (eqf_get inl _ _ (fun _ => eq_refl) H)
          |rewrite (eqf_get asis _ _ (fun _ => eq_refl) H)|rewrite (eqf_get ifdepth _ _ (fun _ => eq_refl) H)
          |rewrite (eqf_get udef _ _ (fun _ => eq_refl) H)|rewrite (eqf_get umacros _ _ (fun _ => eq_refl) H)
          |rewrite (eqf_get bf _ _ (fun _ => eq_refl) H)|rewrite (eqf_get dtags _ _ (fun _ => eq_refl) H)
          |rewrite (eqf_get verse _ _ (fun _ => eq_refl) H)|rewrite (fmt_eqf _ _ H)|rewrite (eqf_get mode _ _ (fun _ => eq_refl) H)|rewrite (eqf_get panicked _ _ (fun _ => eq_refl) H)|rewrite (eqf_get ivars _ _ (fun _ => eq_refl) H)|rewrite (eqf_get params _ _ (fun _ => eq_refl) H)
-         |rewrite (eqf_get toc _ _ (fun _ => eq_refl) H)|rewrite (eqf_get lox_toc _ _ (fun _ => eq_refl) H)]; assumption. Qed.
+         |rewrite (eqf_get toc _ _ (fun _ => eq_refl) H)|rewrite (eqf_get lox_toc _ _ (fun _ => eq_refl) H)
+         |rewrite (eqf_get lox_lof _ _ (fun _ => eq_refl) H)|rewrite (eqf_get lox_lot _ _ (fun _ => eq_refl) H)|rewrite (eqf_get lox_lop _ _ (fun _ => eq_refl) H)]; assumption. Qed.
 Definition is_bd (sc : scope) : Prop := sc_macro sc = R "Bd".
 Definition P (p : bool) (s : st) : Prop := Side s /\ Forall is_bd (sblock s) /\ process s = p /\ (p = true -> Inv s).
 Definition in_frag (b : block) : Prop :=
@@ -156,7 +158,7 @@ Proof. intro Hc. unfold push_block, mk_scope. destruct (cloc s) as [[[l n] f]|];
 Lemma Forall_pop {A} (Q : A -> Prop) l : Forall Q l -> Forall Q (pop l).
 Proof. unfold pop. induction 1 as [|x l Hx Hl IH]; [constructor|]. destruct l as [|y r]; [constructor|]. change (removelast (x :: y :: r)) with (x :: removelast (y :: r)). constructor; assumption. Qed.
 Lemma Side_set_sblock f s : Side s -> Side (s <| sblock ::= f |>).
-Proof. intros [A1 A3 A4 A5 A6 A7 A8 A9 A10 A11 A12 A13 A14 A15 A16 A17]. split; assumption. Qed.
+Proof. intros [A1 A3 A4 A5 A6 A7 A8 A9 A10 A11 A12 A13 A14 A15 A16 A17 A18 A19 A20]. split; assumption. Qed.
 
 Lemma macro_bd_P p s : P p s -> has_cur s = true -> P p (macro_bd s).
 Proof. intros HP Hc. pose proof HP as (HS & Hsb & Hpr & HI). unfold macro_bd. rewrite (scope_verse_bd _ Hsb).
@@ -411,7 +413,7 @@ Proof. intros HP Hc. pose proof HP as (HS & Hsb & Hpr & HI). unfold macro_p. rew
 Qed.
 
 Lemma Side_set_regs b s : Side s -> Side (set_regs b s).
-Proof. intros [A1 A3 A4 A5 A6 A7 A8 A9 A10 A11 A12 A13 A14 A15 A16 A17]. destruct b; split; assumption. Qed.
+Proof. intros [A1 A3 A4 A5 A6 A7 A8 A9 A10 A11 A12 A13 A14 A15 A16 A17 A18 A19 A20]. destruct b; split; assumption. Qed.
 Lemma P_set_regs p b s : P p s -> P p (set_regs b s) /\ has_cur (set_regs b s) = true.
 Proof. intros (HS & Hsb & Hpr & HI). split; [|destruct b; reflexivity].
   split; [apply Side_set_regs; exact HS|]. split; [destruct b; exact Hsb|]. split; [destruct b; exact Hpr|].
@@ -429,7 +431,7 @@ Proof. intros Hb HP. unfold step. cbv zeta.
   set (s0 := set_regs b s) in *.
   pose proof HP0 as (HS & Hsb & Hpr & HI). pose proof HS as HS0. pose proof Hsb as Hsb0. pose proof Hpr as Hpr0. pose proof HI as HI0.
   assert (F0 : s0 ~= s0) by apply eqf_refl.
-  destruct HS0 as [A1 A3 A4 A5 A6 A7 A8 A9 A10 A11 A12 A13 A14 A15 A16 A17].
+  destruct HS0 as [A1 A3 A4 A5 A6 A7 A8 A9 A10 A11 A12 A13 A14 A15 A16 A17 A18 A19 A20].
   rewrite A5, A6. cbn [Nat.ltb Nat.leb].
   assert (Hv : par s0 = false -> verse s0 = false /\ scope_verse s0 = false) by (intros _; split; [exact A10|apply scope_verse_bd; exact Hsb0]).
   destruct b as [n a l|t l].
@@ -527,7 +529,7 @@ Lemma eof_sweep_P s : P true s -> let s' := eof_sweep s in Side s' /\ Inv s' /\ 
 Proof. intros HP. cbv zeta. unfold eof_sweep.
   set (s3 := s <| has_cur := false |> <| macro := R "End Of File" |>).
   assert (HP3 : P true s3).
-  { destruct HP as ([A1 A3 A4 A5 A6 A7 A8 A9 A10 A11 A12 A13 A14 A15 A16 A17] & Hsb & Hpr & HI). split; [split; assumption|]. split; [exact Hsb|]. split; [exact Hpr|].
+  { destruct HP as ([A1 A3 A4 A5 A6 A7 A8 A9 A10 A11 A12 A13 A14 A15 A16 A17 A18 A19 A20] & Hsb & Hpr & HI). split; [split; assumption|]. split; [exact Hsb|]. split; [exact Hpr|].
     intro Hp. apply (Inv_regs s); try reflexivity. exact (HI Hp). }
   destruct (close_unclosed_inline_P s3 HP3) as [HPa Hsia].
   destruct (end_par_P _ HPa Hsia) as (HPb & Hpb & _). cbv zeta in HPb, Hpb.
